@@ -395,6 +395,13 @@ func (t *sgRun) variants(p *sgProof, r *kc.Rng, full bool) {
 	if in.degenerate {
 		rej = "" // see sgInst.degenerate: compared with the model only
 	}
+	// every challenge depends on every byte sent before it (sigma_fs.go)
+	mk := func() proof.Verifier { return in.tree.build(nil, false, nil).Verifier(e.suite, e.pmap(in.pval)) }
+	if what, n := fsSensitivity(e, p.name, mk, p.real); what != "" {
+		t.c.Violation("C14:challenge-insensitive", fmt.Sprintf("%s: %s: %s", e.name, in.tree, what), map[string]any{"group": e.name, "predicate": in.tree.String(), "proof": kc.HexB(p.real)})
+	} else {
+		t.c.CountKindN(e.name+":fs-sensitivity-probes", n)
+	}
 	// other protocol name
 	t.verify(p, "other-name", in.tree, in.pval, p.name+"x", p.real, rej)
 	t.verify(p, "other-name", in.tree, in.pval, "", p.real, rej)
@@ -641,6 +648,11 @@ func runC14(c *kc.Ctx) {
 			o := sgGenOpts{maxBranches: 4, maxTerms: 4, maxReps: 3, nested: i%5 == 4, illFormed: i%14 == 13, degenerate: i%6 == 5}
 			in := sgGen(r, e.q, o)
 			name := fmt.Sprintf("proto-%d", r.Intn(3))
+			if i%7 == 3 {
+				// long protocol names (the name keys the challenge derivation in full, whatever its length):
+				// around the block sizes of the hashes and XOFs in use
+				name = strings.Repeat("protocol-name/", 40)[:[]int{63, 64, 65, 127, 128, 129, 136, 168, 200, 513}[(i/7)%10]] + fmt.Sprint(r.Intn(3))
+			}
 			chs := in.tree.choices()
 			for ci, ch := range chs {
 				p := t.prove(e, in, ch, name, "honest")
